@@ -74,14 +74,14 @@ func (t *vRealCT) Close() {
 type vCCHandler struct{}
 
 func (vCCHandler) OnConnect(context.Context, *Connection, GenericClient, *Server) error { return nil }
-func (vCCHandler) OnConnectError(error, time.Duration)                                 {}
-func (vCCHandler) OnDoCommandError(error, time.Duration)                               {}
-func (vCCHandler) OnDisconnected(context.Context, DisconnectStatus)                    {}
+func (vCCHandler) OnConnectError(error, time.Duration)                                  {}
+func (vCCHandler) OnDoCommandError(error, time.Duration)                                {}
+func (vCCHandler) OnDisconnected(context.Context, DisconnectStatus)                     {}
 func (vCCHandler) ShouldRetry(name string, err error) bool {
 	return err != nil && err.Error() == "throttle"
 }
 func (vCCHandler) ShouldRetryOnConnect(error) bool { return true }
-func (vCCHandler) HandlerName() string           { return "verif-cc" }
+func (vCCHandler) HandlerName() string             { return "verif-cc" }
 
 // cc <id> timeout=<ms> backoff=<ms> cancelat=<ms|-> attempts=<delay>:<ok|throttle|apperr>,...
 func vRunCC(c vCase) string {
